@@ -45,6 +45,9 @@ type Script struct {
 	// StoreDelayUs makes the event store's Open/Append take this long (virtual time): it opens
 	// interleaving windows inside the handler's critical paths without touching the SDK.
 	StoreDelayUs int `json:"store_delay_us,omitempty"`
+	// InitNote: while the server handles a session's initialize request, a receiving middleware reports progress
+	// with that request's context: the notification belongs to the initialize request's exchange.
+	InitNote bool `json:"init_note,omitempty"`
 }
 
 func genScript(rt *rapid.T, race bool) Script {
@@ -61,6 +64,7 @@ func genScript(rt *rapid.T, race bool) Script {
 	if s.Store {
 		s.StoreDelayUs = rapid.SampledFrom([]int{0, 0, 100, 1000}).Draw(rt, "store_delay")
 	}
+	s.InitNote = !s.Stateless && rapid.Bool().Draw(rt, "init_note")
 	n := rapid.IntRange(1, 40).Draw(rt, "n")
 	for i := 0; i < n; i++ {
 		st := Step{Kind: rapid.SampledFrom([]string{"note", "note", "note", "detached", "finish", "after", "duppair", "resupd", "sreq", "sreq", "sreqcancel", "cutreuse", "lateget", "quietcut"}).Draw(rt, "kind")}
@@ -135,6 +139,18 @@ func runInBubble(s Script) (res vt.Result) {
 		SubscribeHandler:   func(context.Context, *mcp.SubscribeRequest) error { return nil },
 		UnsubscribeHandler: func(context.Context, *mcp.UnsubscribeRequest) error { return nil },
 	})
+	initSeq := 0
+	if s.InitNote {
+		server.AddReceivingMiddleware(func(next mcp.MethodHandler) mcp.MethodHandler {
+			return func(ctx context.Context, method string, req mcp.Request) (mcp.Result, error) {
+				if ss, ok := req.GetSession().(*mcp.ServerSession); ok && method == "initialize" {
+					ss.NotifyProgress(ctx, &mcp.ProgressNotificationParams{ProgressToken: "init", Progress: 1, Message: fmt.Sprintf("init%d|initnote|x", initSeq)})
+					initSeq++
+				}
+				return next(ctx, method, req)
+			}
+		})
+	}
 	server.AddResource(&mcp.Resource{URI: "file:///any", Name: "any"}, func(context.Context, *mcp.ReadResourceRequest) (*mcp.ReadResourceResult, error) {
 		return &mcp.ReadResourceResult{Contents: []*mcp.ResourceContents{{URI: "file:///any", Text: "x"}}}, nil
 	})
@@ -301,6 +317,7 @@ func runInBubble(s Script) (res vt.Result) {
 	}()
 
 	sessionIDs := make([]string, s.Sessions)
+	var initEx []*memhttp.Exchange // the exchanges of the initialize requests, by session
 	standalone := make([]*memhttp.Exchange, s.Sessions)
 	for i := 0; i < s.Sessions; i++ {
 		if s.Stateless {
@@ -317,6 +334,7 @@ func runInBubble(s Script) (res vt.Result) {
 			return
 		}
 		sessionIDs[i] = ex.RespHeader().Get("Mcp-Session-Id")
+		initEx = append(initEx, ex)
 		do("POST", `{"jsonrpc":"2.0","method":"notifications/initialized"}`, sessionIDs[i])
 		if s.Standalone[i] {
 			standalone[i] = do("GET", "", sessionIDs[i])
@@ -517,6 +535,13 @@ func runInBubble(s Script) (res vt.Result) {
 					res.Failf("step %d: the standalone stream of session %d carries a response (id %s)", step, i, f.respID)
 					continue
 				}
+				if f.kind == "initnote" && s.JSON {
+					continue // a JSON response carries nothing but the response: the standalone stream is the only route left
+				}
+				if f.kind == "initnote" {
+					res.Failf("step %d: a notification issued with the context of an initialize request (%s) travelled on the standalone stream of session %d instead of that request's exchange", step, f.tag, i)
+					continue
+				}
 				if f.kind == "cancelnote" {
 					// Cancellation of a nested request that was both issued and given up while its handler was
 					// demonstrably still running (strictCancel): it was "issued while handling a request".
@@ -546,6 +571,29 @@ func runInBubble(s Script) (res vt.Result) {
 
 	var desc strings.Builder
 	dupN, sreqN, reuses := 0, 0, 0
+	initNoteOK := func() {
+		if !s.InitNote || s.JSON {
+			return
+		}
+		res.Class("notification_sent_while_handling_initialize")
+		for i, ex := range initEx {
+			seen := false
+			for _, f := range messagesOf(ex) {
+				if f.kind == "initnote" && f.tag == fmt.Sprintf("init%d", i) {
+					seen = true
+				} else if f.kind == "initnote" {
+					res.Failf("the exchange of session %d's initialize request carries the notification %s of another initialize request", i, f.tag)
+				}
+			}
+			if !seen {
+				res.Failf("the notification the server sent with the context of session %d's initialize request did not travel on that request's exchange (SSE mode): %q", i, ex.Written())
+			}
+		}
+	}
+	initNoteOK()
+	if len(res.Violations) > 0 {
+		return res
+	}
 	for i, st := range s.Steps {
 		if st.Kind == "duppair" {
 			if s.Stateless {
